@@ -11,5 +11,7 @@ mod varint;
 #[cfg(kani)]
 mod latlng;
 #[cfg(kani)]
+mod dirfind;
+#[cfg(kani)]
 mod gen_zoom;
 pub mod gen_latlng;
